@@ -38,10 +38,10 @@ func scenarios(tier string) []engine.Scenario {
 	var scs []engine.Scenario
 	// One scenario per (type, family); a leaf loops over the catalogue values of the type, so that a defect of a
 	// type is one violating leaf per family and not one per value (the engine keeps a bounded number of violating
-	// leaves per worker, whatever the number of workers). Families are interleaved so that the round-robin
-	// distribution gives every worker a mix of cheap and dear ones.
-	for _, e := range cat {
-		for _, f := range families {
+	// leaves per worker, whatever the number of workers). Family-major order: the engine deals scenarios round-robin,
+	// so the types of each family (and with them the dear families) are spread over all workers.
+	for _, f := range families {
+		for _, e := range cat {
 			e, f := e, f
 			name := fmt.Sprintf("c08/%s/%s", f.name, e.name)
 			scs = append(scs, engine.Scenario{Name: name, Bound: -1, Fn: func(c *engine.Chooser) {
@@ -136,7 +136,7 @@ func main() {
 			"fragmentation = leaf 0: all reader buffer sizes direct/16/17/100/4096 with the whole data available, then one leaf per chunking class over all buffer sizes ( short reads 1/2/7/9/1000/halves, io.EOF together with data, one (0,nil) read at each position, two chunks split at each byte); " +
 			"truncation = one leaf over every decoder and every cut offset (all offsets up to 4 KiB, else first 256 + every 64th + last 8; thorough: all); " +
 			"corruption = one leaf over every decoder and every located header field (each of the first 64 bytes, every small LE u32/u64, every byte of JSON texts) x {0,1,2,0xff,orig+-1,2^63,2^64-1,2^20,2^31,2^32-1} (JSON: 8 bit flips + 3 bytes), allocation-driving lengths probed at 2^19, attributed to the decoder function that reads the field (traced reader calls) and confirmed once per such function above 80 MiB; " +
-			"writer-failure = one leaf per failing writer kind over every failure offset; concurrent-writers = one leaf per interleaving of the Write calls of two objects serialized by two goroutines to two gating writers (every interleaving up to 400 / 6000 per pair). Fault-point executions run in a helper process so that fatal errors are observations. " +
+			"writer-failure = one leaf per failing writer kind over every failure offset; concurrent-writers = one leaf per interleaving of the Write calls of two objects serialized by two goroutines to two gating writers (every interleaving up to 800 / 50000 per pair). Fault-point executions run in a helper process so that fatal errors are observations. " +
 			"distinct_nontrivial counts distinct (scenario, environment, observed result) classes.",
 		Assumptions: []string{
 			"back-to-back reads from one stream go through ONE shared reader implementing lattigo's buffer.Reader (bufio.Reader or buffer.Buffer); for a plain io.Reader the library documents a read-ahead bufio wrapper, so only the returned count is checked there",
